@@ -133,7 +133,7 @@ PROFILES = {
     "C02": [("streams", dict(n_defs=(4, 14), samples=0.1, self_merge=True,
                              weights=W(map=5, mapto=1, filter=3, filteropt=1, merge=6, orelse=2, snapshot=3, snapshot1=1, snapshotn=1.5, gate=2, once=2,
                                        hold=1.5, mapc=0.5, lift2=0.5, liftn=0, accum=0.5, collect=0.3, value=0.3, updates=1, ancestormerge=0.6))),
-            ("streams-intxn", dict(n_defs=(3, 10), intxn_defs=0.5, self_merge=True, weights=W(once=3, merge=6, gate=2, switchlatec=1.5, switchlate=1, latelisten=2.5, handlerlisten=2))),
+            ("streams-intxn", dict(n_defs=(3, 10), intxn_defs=0.5, self_merge=True, weights=W(once=3, merge=6, gate=2, switchlatec=1.5, switchlatecs=1.5, switchlate=1, latelisten=2.5, handlerlisten=2))),
             # events re-emitted by defer/split/post in transactions of their own, meeting streams derived from the same source
             ("streams-deferred", dict(n_defs=(5, 12), n_listen=(2, 5), max_defer=2, posts=0.2, nest=0.6, self_merge=True,
                                       weights=W(defer=5, split=2, map=5, filter=2, merge=7, orelse=3, snapshot=2, hold=1.5, gate=1, once=1)))],
@@ -151,13 +151,13 @@ PROFILES = {
                                      weights=W(latehold=6, hold=3, map=5, ssink=4, csink=2, merge=3, snapshot=2))),
     ],
     "C05": [("switch-dynamic", dict(n_defs=(4, 10), sends_per_txn=(1, 4), samples=0.3, wfchecks=0.2, intxn_defs=0.3, unused_base=0.6,
-                                    weights=W(switchdyn=6, switchlate=4, switchlatec=5, switchnest=4, lateswitch=3, lateswitchc=3, switchs=2, csink=5, ssink=4, hold=2, map=2, merge=2, snapshot=1))),
+                                    weights=W(switchdyn=6, switchlate=4, switchlatec=5, switchlatecs=5, switchnest=4, lateswitch=3, lateswitchc=3, switchs=2, csink=5, ssink=4, hold=2, map=2, merge=2, snapshot=1))),
             ("switch-defer", dict(n_defs=(5, 11), sends_per_txn=(1, 4), max_defer=2, samples=0.3, wfchecks=0.3,
                                   weights=W(switchs=6, switchc=2, defer=5, split=1, csink=4, ssink=3, map=2, hold=2, merge=2))),
             ("switch", dict(n_defs=(5, 12), samples=0.5, intxn_defs=0.2, sends_per_txn=(1, 4),
                             weights=W(switchs=4, switchc=4, csink=4, hold=3, ssink=4, lift2=1, accum=1)))],
     "C10": [("listeners", dict(n_listen=(2, 6), unlisten=0.5, unlisten_in_txn=0.5, nest=0.8, intxn_defs=0.6, drops=0.3, gcs=0.3, weak=0.15,
-                               unlisten_new_in_txn=0.4, listen_fired_in_txn=0.5, listenkills=0.5, weights=W(value=2, hold=3, csink=3, handlerlisten=3))),
+                               unlisten_new_in_txn=0.4, listen_fired_in_txn=0.5, listenkills=0.5, weights=W(value=2, hold=3, csink=3, handlerlisten=3, laterouter=1.5))),
             ("listeners-handles-dropped", dict(n_listen=(3, 6), n_txn=(6, 14), unlisten=0.5, drop_listeners=0.6, drops=0.6, gcs=0.6, weights=W(value=1, hold=2, csink=2, map=3, merge=2)))],
     "C11": [("loops", dict(n_defs=(3, 9), samples=0.4, nested_cloops=0.5, early_loop_handle=0.4, sends_around_loop=0.35, weights=W(sloop=2.5, cloop=2.5, hold=3, snapshot=4, accum=1, merge=4, gate=1, lift2=2, mapc=2, lateloop=2))),
             ("loops-misuse", dict(n_defs=(3, 8), malformed=True, weights=W(sloop=2, cloop=2, hold=3, snapshot=3)))],
@@ -178,7 +178,7 @@ PROFILES = {
                                   weights=W(ssinkc=7, csink=3, ssink=2, hold=3, merge=2, defer=1)))],
     "C17": [("lazies", dict(lazies=0.9, samples=0.3, n_txn=(4, 14), weights=W(mapc=4, lift2=3, liftn=1, holdlazy=3, hold=3, csink=4, accum=2, accumlazy=2, collectlazy=1, cloop=1, snaplazy=3, snapshot=2)))],
     "C18": [("router", dict(n_defs=(4, 10), drops=0.3, gcs=0.3, drop_routers=0.3, rerequest=0.3, routelate=0.5, routehandler=0.6, max_defer=2,
-                            weights=W(router=5, route=4, ssink=4, map=3, merge=3, hold=1, accum=1.5, collect=1)))],
+                            weights=W(router=5, route=4, laterouter=3, ssink=4, map=3, merge=3, hold=1, accum=1.5, collect=1)))],
     "C06": [("drops", dict(drops=0.8, gcs=0.5, memchecks=0.5, n_defs=(5, 14), n_txn=(4, 12),
                            weights=W(sloop=1.5, cloop=1.5, accum=2, collect=2, switchs=1.5, switchc=1, router=1, defer=1, lift2=2, lift2d=1.5, snapshotn=1, hold=3, snapshot=3))),
             # handles dropped by a listener handler, while the node they keep is queued for update
@@ -195,7 +195,7 @@ PROFILES = {
             ("reorder", dict(n_defs=(4, 12), samples=0.4, weights=W(defer=0.7, lift2=2, accum=1, switchs=0.5))),
             # graphs that grow while events flow: streams, cells and listeners built inside handlers
             ("built-in-flight", dict(n_defs=(4, 10), samples=0.5, sends_per_txn=(1, 3), n_listen=(1, 3),
-                                     weights=W(switchlatec=6, switchlate=3, latelisten=4, handlerlisten=3, latehold=3, lateloop=2, leafdrop=2, switchnest=2, snapmapc=2,
+                                     weights=W(switchlatec=6, switchlatecs=4, laterouter=2, switchlate=3, latelisten=4, handlerlisten=3, latehold=3, lateloop=2, leafdrop=2, switchnest=2, snapmapc=2,
                                                map=5, hold=2, csink=2, ssink=4, merge=2)))],
 }
 
